@@ -209,6 +209,9 @@ func (c *Ctx) rangeObligations(eng *ranges.Engine, funcs map[*ssa.Function]bool,
 					st.mk++
 					av := eng.At(fn, x.Len, b)
 					s, d := decideRange(av, 0, posInf, false)
+					if av.Blowup && av.Taint && s != report.Violated {
+						s, d = report.Violated, "allocation size "+av.String()+" is derived from 1<<n with a stream-controlled n that no check keeps below 31: a few header bytes request gigabytes (memory unrelated to the declared image size)"
+					}
 					add("MAKE", fn, "make("+strings.TrimPrefix(x.Type().String(), load.ModPath+"/")+", "+addrExpr(x.Len)+")", s, ins, d)
 				case *ssa.TypeAssert:
 					if !x.CommaOk {
